@@ -133,6 +133,9 @@ let r_shape t = r_list r_nat t
 
 let dispatch (cmd : string) (t : tree) : tree =
   match cmd, as_list t with
+  | "order_io", [cs] ->
+      let cs = r_list (r_pair (r_list r_nat) (r_list r_nat)) cs in
+      L [w_list w_nat (Order.inputs_ordered cs); w_list w_nat (Order.coupling_ordered cs); w_list w_nat (Order.outputs cs)]
   | "shape_loop", [shapes] -> w_list w_nat (Shape.loop_shape (r_list r_shape shapes))
   | "shape_fmt_input", [l; s; data] -> w_list (w_list w_z) (Shape.fmt_input (r_shape l) (r_shape s) (r_list r_z data))
   | "shape_out", [l; o] -> w_list w_nat (Shape.fmt_output_shape (r_shape l) (r_shape o))
